@@ -93,7 +93,7 @@ def check(run, driver):
     _form = [0]
     ks = [1, 2, 5, None]
     metrics = ["euclidean", "cityblock", "chebyshev"]
-    bws = ["silverman", "scott", 0.5]
+    bws = ["silverman", "scott", 0.5, 1, np.float32(0.75), np.int64(2)]      # (numeric bandwidths of any numeric type)
     kernels = ["gaussian", "epanechnikov"] if thorough else ["gaussian"]
     datasets = []
     for i in range(3 if thorough else 2):
@@ -185,7 +185,7 @@ def check(run, driver):
             if (nm, zp) not in failing_entries:
                 run.corr_fail("table-vs-behaviour", {"entry": [nm, zp]}, "table entry passes tableOK", "dispatcher differs from the direct evaluation")
     # ---------------- floor / pass-through with planted values
-    planted = [float("nan"), float("inf"), float("-inf"), -3.5, -1e-300, -0.0, 0.0, 2.25, 1e300, -1000.0]
+    planted = [float("nan"), float("inf"), float("-inf"), -3.5, -1e-300, -0.0, 0.0, 2.25, 1e300, -1000.0, 1e-300, 5e-324, 1e-12, 3e-9, 1e-6, -1e-9]
     reqs = []
     for v in planted:
         for name, zp in itertools.product(NAMES, (True, False)):
